@@ -6,7 +6,7 @@ from . import core, recon
 def run(chk):
     chk.prove()
     count, nmax = (3000, 40) if chk.quick() else (40000, 120)
-    cases, lines, impl, parsed, fvh, fvm = recon.run_stream(chk, count, nmax, gets_matter="unordered")
+    cases, lines, impl, parsed, fvh, fvm = recon.run_stream(chk, count, nmax, gets_matter=False)
     calls = 0
     for c, l, raw, r in zip(cases, lines, impl, parsed):
         if r is None:
